@@ -13,7 +13,7 @@ def claim(pid, level, engine, technique, text, note, ref):
     CLAIMED[pid] = dict(level=level, engine=engine, technique=technique, text=text, note=note, ref=ref)
 
 claim("C08", "exploration", "balance",
-      "runtime oracle over direct Plan calls: exhaustive small groups (incl. every sticky prior user data over a small universe), random large groups, rebalance chains, one-step changes from every settled 3x3 group, generation conflicts with a stale claimant, a member x partition sweep per strategy, subscription lists naming a topic twice, literal groups that once broke a strategy (hook bal.cycle marks plans cut by the sticky repetition guard)",
+      "runtime oracle over direct Plan calls: exhaustive small groups (incl. every sticky prior user data over a small universe), random large groups, rebalance chains, one-step changes from every settled 3x3 group, generation conflicts with a stale claimant, growth-and-joins steps (two settled members, then topics grow and 2-4 members with other subscriptions join), a member x partition sweep per strategy, subscription lists naming a topic twice, literal groups that once broke a strategy (hook bal.cycle marks plans cut by the sticky repetition guard)",
       "Every plan produced by range / round-robin / sticky on the enumerated and generated groups is checked by a validity oracle written from the statement (each subscribed partition exactly one owner, owner subscribed, no unknown member/partition). Small bounds are enumerated completely, large groups and chains of rebalances are sampled; panics and non-returning Plan calls are caught per call.",
       "Held on the inputs of the run only. Inputs are restricted to what consumerGroup.balance can build (every topic has a subscriber).",
       "DESIGN.md §7 C08")
@@ -25,7 +25,7 @@ claim("C13", "exploration", "balance",
 
 claim("C01", "fault_enumeration", "prod",
       "runtime monitor of the real AsyncProducer/SyncProducer against a simulated cluster: enumerated fault words x retry budget x idempotence plus seeded random scenarios with hook-based schedule steering; conservation oracle over submit/outcome events at the API boundary, quiescence-based completion verdict, race detector",
-      "Every fault word of length <= 2 (quick) / <= 3 (thorough) over the 9-letter produce-fault alphabet is run for Retry.Max 0-2 and idempotent on/off on a small scenario; seeded random scenarios add brokers, partitions, flush settings, versions, acks, leader moves, leaderless windows, metadata failures, SyncProducer callers and steering plans; directed multi-step scenarios (retry cycle / leaderless window / second retry cycle; the same partition refused several times in a row with input at several paces and responses held until k more messages are buffered); cases that re-submit message objects handed back on Successes()/Errors(). For each run: every submitted message has exactly one terminal event, no event for anything else, Close/AsyncClose completes (stuck only when nothing moves any more), SyncProducer returns equal the producer's outcome for that pointer.",
+      "Every fault word of length <= 2 (quick) / <= 3 (thorough) over the 9-letter produce-fault alphabet is run for Retry.Max 0-2 and idempotent on/off on a small scenario; seeded random scenarios add brokers, partitions, flush settings, versions, acks, leader moves, leaderless windows, metadata failures, SyncProducer callers and steering plans; directed multi-step scenarios (retry cycle / leaderless window / second retry cycle; the same partition refused several times in a row with input at several paces and responses held until k more messages are buffered; one response refusing batches of 2-3 partitions of one broker); cases that re-submit message objects handed back on Successes()/Errors(). For each run: every submitted message has exactly one terminal event, no event for anything else, Close/AsyncClose completes (stuck only when nothing moves any more), SyncProducer returns equal the producer's outcome for that pointer.",
       "Held on the executions of the run. Successes pending when Close() is called are drained by Close itself (documented) and are then checked through the ap.outcome hook instead of the channel.",
       "DESIGN.md §7 C01")
 claim("C02", "fault_enumeration", "prod",
@@ -67,7 +67,7 @@ claim("C11", "exploration", "cons",
       "DESIGN.md §7 C11")
 claim("C18", "fault_enumeration", "prod",
       "runtime monitor: recording / mutating / panicking interceptor chains on the real producer (enumerated fault words, retries at depth 1-3, chaser markers) and on the real consumer (slow-reader path forced by reader pace, observed through the pc.expired hook); exactly-once oracle per message pointer / offset and on the wire / delivered payload",
-      "Producer: C01's enumerated core, directed and random scenarios with chains of 1-4 interceptors, tombstones and messages the producer must refuse; consumer: C03 scenarios with slow readers. Each interceptor must run exactly once per application message, in order, never for markers; mutations must appear exactly once; a panicking interceptor must not break the chain or the pipeline.",
+      "Producer: C01's enumerated core, directed and random scenarios with chains of 1-4 interceptors, tombstones and messages the producer must refuse; consumer: C03 scenarios with slow readers; cases that refill message objects and submit them again (to the same producer once handed back, to a second producer after Close; Return.Successes / Return.Errors on and off; first life failed, retried or plain). Each interceptor must run exactly once per application message, in order, never for markers; mutations must appear exactly once; a panicking interceptor must not break the chain or the pipeline.",
       "Held on the executions of the run.",
       "DESIGN.md §7 C18")
 
